@@ -17,7 +17,7 @@ from ..oracles import quadrature as Q
 
 ID = "C12"
 RULE = ("case = (copula-model spec of dimension 2|3, seed): 30 rectangles not containing the origin, every coordinate interval "
-        "drawn from {positive, negative, straddling 0 (at most d-1), half-infinite, whole line}; per rectangle: non-negativity, "
+        "drawn from {positive, negative, straddling 0 (at most d-1), half-infinite, whole line, (0, c] for finite-activity margins}; per rectangle: non-negativity, "
         "fast path = general formula = harness corner-sum oracle, additivity under a random split of a random axis (incl. at 0), "
         "whole-line coordinates = margin of the others, index subsets = I-margins; tail-integral inverse round trips; queries "
         "interleaved over two instances and repeated on a fresh one; non-trivial = rectangle of positive mass; distinct = "
@@ -27,7 +27,7 @@ ASSUMPTIONS = [
     "margins in the documented boxes; rectangles with end points of magnitude 1e-3..5",
 ]
 REQUIRED_COUNTERS = ["rectangles", "fast_vs_general", "oracle_comparisons", "additivity_checks", "margin_checks",
-                     "subset_checks", "inverse_roundtrips", "instance_interleavings"]
+                     "subset_checks", "inverse_roundtrips", "instance_interleavings", "rectangles_starting_at_0"]
 MIN_NONTRIVIAL = {"quick": 100, "thorough": 1500}
 
 
@@ -53,6 +53,8 @@ def _interval(rng, klass):
     if klass == "pos":
         a = mag()
         return a, W.r6(a * rng.uniform(1.05, 20))
+    if klass == "from-0":
+        return 0.0, mag()
     if klass == "neg":
         a = mag()
         return -W.r6(a * rng.uniform(1.05, 20)), -a
@@ -67,11 +69,15 @@ def _interval(rng, klass):
     raise ValueError(klass)
 
 
-def _rectangle(rng, d):
+def _rectangle(rng, d, finite_activity=()):
     while True:
         ks = [str(rng.choice(["pos", "neg", "straddle", "right-inf", "left-inf", "whole"], p=[0.25, 0.25, 0.2, 0.1, 0.1, 0.1])) for _ in range(d)]
         if sum(1 for k in ks if k in ("straddle", "whole")) <= d - 1:
             break
+    for k in range(d):
+        # (0, c]: lower end point exactly at 0 -- unambiguous (and finite) when the margin has finite activity
+        if k < len(finite_activity) and finite_activity[k] and ks[k] == "pos" and rng.random() < 0.4:
+            ks[k] = "from-0"
     ab = [_interval(rng, k) for k in ks]
     return ks, [x[0] for x in ab], [x[1] for x in ab]
 
@@ -90,10 +96,13 @@ def run_case(case, R):
     fast = {2: "_mass_2d", 3: "_mass_3d"}[d]
     # absolute floor: the closed-form tail integrals carry an absolute rounding error of ~1e-16 times the mass of the margin
     floor = 1e-14 * sum(abs(oracle.U(k, 1e-3)) + abs(oracle.U(k, -1e-3)) for k in range(d))
+    finite = [ms["family"] in ("HEM", "MERTON") or (ms["family"] == "CGMY" and ms["params"]["y"] < 0) for ms in cm["margins"]]
     log = []
     for r in range(30):
-        ks, a, b = _rectangle(rng, d)
+        ks, a, b = _rectangle(rng, d, finite)
         R.hit("rectangles")
+        if "from-0" in ks:
+            R.hit("rectangles_starting_at_0")
         pat = "/".join(ks)
         model = m1 if r % 2 else m2           # interleave two instances (lru_cache on the tail integrals)
         try:
@@ -146,7 +155,7 @@ def run_case(case, R):
                 R.violation(f"mass-raises-{d}d", f"{label}: mass of a piece raises {type(exc).__name__}: {exc}", wit)
         # whole line in all other coordinates = marginal mass
         k = int(rng.integers(d))
-        if ks[k] in ("pos", "neg", "right-inf", "left-inf"):
+        if ks[k] in ("pos", "neg", "right-inf", "left-inf", "from-0"):
             aw, bw = [-math.inf] * d, [math.inf] * d
             aw[k], bw[k] = a[k], b[k]
             R.hit("margin_checks")
